@@ -38,6 +38,10 @@ CHECKS = {
         text="Lean theorems C13_*: for every atom constructor with universally quantified parameters, each of the 28 law instances (both operand orders) is an equation on the model's output for every fuel >= 3 (30 theorems by case analysis over the 31 atom constructors; p & p under the hypothesis that the subset arm is not the implemented one, with a partial form and a decide-witness for is_subset_p(set())); tie: model vs predicate.optimize on all 28 laws x 132 atoms incl. opaque kinds, and the result compared with the result the property names.",
         note=TB + "Open defect KF-subsetEmpty is a KNOWN-FINDING (p & p for p = is_subset_p(set())).",
         tech="Lean 4 proof (case analysis per atom constructor, simp) + differential correspondence (opt)", ref="§7 C13"),
+    "C12": dict(
+        text="Lean theorems: fuel monotonicity and determinism of the fuelled optimizer model (a result, once produced, is the result for every larger fuel), one-step termination on atoms; NOT proved: termination for every tree and the polynomial bound (stated in DESIGN.md). Tie and observation: the model never runs out of fuel and predicate.optimize always returns a predicate on the C01-C03 term spaces and on random trees of 60-400 nodes (structural agreement on every case); optimize* call counts on six growing families (at most quadratic; a measurement); purity by deep structural snapshots and fresh-copy comparison over random sequences of the eight analysis functions on one shared object.",
+        note=TB + "PARTIAL: the unbounded termination theorem and the polynomial bound are not proved; purity is decided by the correspondence (the Lean functions are pure by construction), not by a theorem of substance.",
+        tech="Lean 4 proof (fuel monotonicity/determinism) + differential correspondence + call-count measurement + snapshot histories", ref="§7 C12, §10"),
 }
 
 PENDING = {}
